@@ -112,6 +112,12 @@ func cmdCheck(args []string) {
 	solverSeed = seed
 	tc := tiers[*tier]
 	t0 := time.Now()
+	if os.Getenv("GOVC_NO_MEMO") == "" {
+		// memoization of discharged queries between the per-property commands of one sandbox
+		// (identical query text, keyed by hash and solver seed; only "unsat" answers are kept)
+		diskCacheDir = filepath.Join(*verif, "out", "qcache", fmt.Sprintf("seed%d", seed))
+		os.MkdirAll(diskCacheDir, 0o755)
+	}
 	outDir := filepath.Join(*verif, "out", *prop, *tier)
 	os.RemoveAll(outDir)
 	os.MkdirAll(filepath.Join(outDir, "replays"), 0o755)
